@@ -124,7 +124,7 @@ Proof.
       - intros x Hx Hle. apply Hk; [|lia].
         replace (j - k) with (S (j - S k)) by lia. exact Hx. }
     apply G. intros x Hx _. rewrite Nat.sub_0_r in Hx. rewrite E in Hx. inversion Hx. reflexivity. }
-  assert (SP : sp || (if ma then false else false) = sp) by (destruct ma, sp; reflexivity).
+  assert (SP : sp || false = sp) by (destruct sp; reflexivity).
   destruct m; try discriminate.
   - (* before *)
     destruct code as [|c cs];
